@@ -12,6 +12,13 @@
 (*   K2 the handler does not panic  -> redis-command-panic                 *)
 (*   K3 exactly one reply per command -> redis-command-no-reply /          *)
 (*                                       redis-extra-reply-bytes           *)
+(*   K4 after every write command the deadline of the hold that carries    *)
+(*      the key (read in-package: Lock.expriedTime against the virtual     *)
+(*      clock) fits the time-to-live of the plain store - the asked term,  *)
+(*      rounded up by at most one granule of its unit, or none - and a     *)
+(*      waiting SET .. NX TX/PTX is queued with the asked wait and answered *)
+(*      after it              -> redis-ttl-differs-from-kv-store           *)
+(*      (detail.cls names the option and range that set the term)          *)
 (* After the first deviation of a history its remaining commands are not   *)
 (* judged (the store the code continues from is unknown).  Open cases are  *)
 (* not judged either: commands for which RedisCmds!Exec is open, and a     *)
@@ -28,7 +35,7 @@ VARIABLES l, m
 vars == <<l, m>>
 
 MKeys == {"k1", "k2", "k3"}
-M0 == [kv |-> [k \in MKeys |-> Absent], dead |-> FALSE, nv |-> 0, name |-> "", ncmd |-> 0, nopen |-> 0, ndead |-> 0]
+M0 == [kv |-> [k \in MKeys |-> Absent], now |-> 0, dead |-> FALSE, nv |-> 0, name |-> "", ncmd |-> 0, nopen |-> 0, ndead |-> 0, nttl |-> 0]
 
 Report(mm, code, e, detail) ==
     IF "C15" \in Props
@@ -46,14 +53,45 @@ StepCmd(mm, e) ==
     IF mm.dead THEN [mm EXCEPT !.ndead = @ + 1]
     ELSE
     LET c == [c |-> e.c, k |-> e.k, v |-> e.v, d |-> e.d]
-        x == Exec(mm.kv, c)
+        x == Exec(mm.kv, c, mm.now)
         o == Observed(e.reply)
-        anyTtl == \E k \in MKeys : mm.kv[k].p /\ mm.kv[k].ttl
+        anyTtl == \E k \in MKeys : mm.kv[k].p /\ mm.kv[k].ttl.on
+        \* K4: time-to-live of the key after the command
+        after == x.kv[c.k]
+        judgeTtl == c.c \in WriteCmds /\ after.p
+        ttlOk == e.ttl.held /\ TtlFits(after.ttl, mm.now, e.ttl.unlimited, e.ttl.left_ms)
+        \* label: the update short-cut of the engine drops a new term whose deadline is "equal" to the current one
+        \* (within 1 s in the second unit, 60 s in the minute unit) - told apart from a wrong conversion by the
+        \* observed deadline still fitting the OLD time-to-live and the two asked deadlines lying that close
+        oldT == IF mm.kv[c.k].p THEN mm.kv[c.k].ttl ELSE NoTtl
+        Abs(z) == IF z < 0 THEN 0 - z ELSE z
+        tol == IF after.ttl.hi - after.ttl.lo >= 60000 \/ oldT.hi - oldT.lo >= 60000 THEN 61000 ELSE 2000
+        keptOld == oldT.on /\ after.ttl.on /\ ~after.ttl.ms /\ e.ttl.held /\ TtlFits(oldT, mm.now, e.ttl.unlimited, e.ttl.left_ms)
+                   /\ Abs(oldT.lo - after.ttl.lo) <= tol
+        ttlCls == IF keptOld THEN "update-within-tolerance-of-current-deadline-dropped"
+                  ELSE IF after.ttl.on THEN (IF mm.kv[c.k].p THEN after.ttl.src \o "-on-existing-key" ELSE after.ttl.src)
+                  ELSE IF c.c \in {"PERSIST", "PERSIST3"} THEN "persist-leaves-a-deadline"
+                  ELSE IF c.c \in {"SET", "GETSET", "SET_XX"} THEN "plain-set-leaves-a-deadline"
+                  ELSE "command-without-option-sets-a-deadline"
+        \* K4: a SET .. NX with a wait option on a key that exists waits, then answers nil
+        w == AskedWait(c)
+        waits == c.c \in {"SET_NX_TX", "SET_NX_PTX"} /\ mm.kv[c.k].p /\ ~anyTtl
+        waitOk == /\ e.wait_term_ms >= w.lo /\ e.wait_term_ms <= w.hi
+                  /\ (w.ms \/ (e.ticks * 1000 >= w.lo /\ e.ticks * 1000 <= w.hi + SWEEP))
+        waitCls == IF c.c = "SET_NX_TX" THEN (IF c.d > 65535 THEN "wait-seconds-option-above-65535-minutes" ELSE "wait-seconds-option-up-to-65535")
+                   ELSE IF c.d > 65535000 THEN "wait-ms-option-above-65535000-minutes"
+                   ELSE IF c.d > 3000 THEN "wait-ms-option-above-3000-stored-as-seconds" ELSE "wait-ms-option-up-to-3000"
     IN
-    IF c.c = "TICK" THEN [mm EXCEPT !.kv = x.kv]
+    IF c.c = "TICK" THEN (IF x.open THEN [mm EXCEPT !.dead = TRUE, !.nopen = @ + 1] ELSE [mm EXCEPT !.kv = x.kv, !.now = @ + c.d * 1000])
     ELSE IF e.panic # ""
     THEN Report(mm, "redis-command-panic", e, [cls |-> DeviationClass(mm.kv, c, o, TRUE), cmd |-> e.args, panic |-> e.panic])
     ELSE IF x.open THEN [mm EXCEPT !.dead = TRUE, !.nopen = @ + 1]
+    ELSE IF waits /\ ~e.hung /\ ~waitOk
+    THEN Report(mm, "redis-ttl-differs-from-kv-store", e,
+                [cls |-> waitCls, cmd |-> e.args, asked_ms |-> <<w.lo, w.hi>>, queued_with_ms |-> e.wait_term_ms, answered_after_s |-> e.ticks])
+    ELSE IF waits /\ e.hung
+    THEN Report(mm, "redis-ttl-differs-from-kv-store", e,
+                [cls |-> waitCls, cmd |-> e.args, asked_ms |-> <<w.lo, w.hi>>, queued_with_ms |-> e.wait_term_ms, answered_after_s |-> -1])
     ELSE IF e.hung THEN Report(mm, "redis-command-no-reply", e, [cls |-> "other", cmd |-> e.args])
     ELSE IF e.ticks > 0 /\ anyTtl THEN [mm EXCEPT !.dead = TRUE, !.nopen = @ + 1]
     ELSE IF o \notin x.replies
@@ -61,12 +99,16 @@ StepCmd(mm, e) ==
                 [cls |-> DeviationClass(mm.kv, c, o, FALSE), cmd |-> e.args, reply |-> e.reply.raw, expected |-> SetToSeq(x.replies),
                  key_state |-> mm.kv[c.k], waited_s |-> e.ticks])
     ELSE IF e.reply.extra # 0 THEN Report(mm, "redis-extra-reply-bytes", e, [cls |-> "other", cmd |-> e.args, extra |-> e.reply.extra])
-    ELSE [mm EXCEPT !.kv = x.kv, !.ncmd = @ + 1]
+    ELSE IF judgeTtl /\ ~ttlOk
+    THEN Report(mm, "redis-ttl-differs-from-kv-store", e,
+                [cls |-> ttlCls, cmd |-> e.args, asked_deadline_ms_from_now |-> IF after.ttl.on THEN <<after.ttl.lo - mm.now, after.ttl.hi - mm.now>> ELSE <<>>,
+                 observed |-> e.ttl])
+    ELSE [mm EXCEPT !.kv = x.kv, !.now = @ + e.ticks * 1000, !.ncmd = @ + 1, !.nttl = @ + (IF judgeTtl THEN 1 ELSE 0)]
 
 Step(mm, e) ==
-    CASE e.e = "begin" -> [M0 EXCEPT !.nv = mm.nv, !.name = e.name, !.ncmd = mm.ncmd, !.nopen = mm.nopen, !.ndead = mm.ndead]
+    CASE e.e = "begin" -> [M0 EXCEPT !.nv = mm.nv, !.name = e.name, !.ncmd = mm.ncmd, !.nopen = mm.nopen, !.ndead = mm.ndead, !.nttl = mm.nttl]
       [] e.e = "rcmd"  -> StepCmd(mm, e)
-      [] e.e = "end"   -> IF l = Len(Trace) /\ PrintT("MONSTAT " \o ToJson([ops |-> mm.ncmd, agnostic |-> mm.nopen, replies |-> mm.ncmd, skipped_after_deviation |-> mm.ndead, viol |-> mm.nv]))
+      [] e.e = "end"   -> IF l = Len(Trace) /\ PrintT("MONSTAT " \o ToJson([ops |-> mm.ncmd, agnostic |-> mm.nopen, replies |-> mm.ncmd, skipped_after_deviation |-> mm.ndead, ttl_judged |-> mm.nttl, viol |-> mm.nv]))
                           THEN mm ELSE mm
       [] OTHER -> mm
 
